@@ -86,13 +86,22 @@ Definition pm_scope_eqb (a b : pm_scope) : bool :=
   | _, _ => false
   end.
 
-(* the boolean fragment of the DSL the tie generates:  sc.name == "n",  sc.vars.k == "v",  sc.name == x
-   (x a filter variable), &&, ||, !, true, false;  sc a namespace variable: host, service, obj or a joined object *)
+(* the boolean fragment of the DSL the tie generates:  sc.name == "n",  sc.vars.k == "v",  &&, ||, !, true, false
+   with sc a namespace variable (host, service, obj or a joined object), and atoms that mention a FREE NAME x - a name
+   EvaluateFilter does not bind, which the evaluator resolves in the frame's own namespace first and in the imports /
+   global constants after it:  sc.name == x,  sc.vars.k == x,  sc.name in x,  match(x, sc.name);  and function calls
+   that keep a user filter off the targeted fast path:  match("p", sc.name),  len(sc.name) == n,  regex("^s$", sc.name) *)
 Inductive pm_filter :=
 | PmFTrue | PmFFalse
 | PmFName (sc : pm_scope) (n : pm_str)
 | PmFVar (sc : pm_scope) (k v : pm_str)
 | PmFNameVar (sc : pm_scope) (x : pm_str)
+| PmFVarFree (sc : pm_scope) (k x : pm_str)
+| PmFNameIn (sc : pm_scope) (x : pm_str)
+| PmFMatch (sc : pm_scope) (pat : pm_str)
+| PmFMatchVar (sc : pm_scope) (x : pm_str)
+| PmFLen (sc : pm_scope) (n : Z)
+| PmFRegex (sc : pm_scope) (s : pm_str)
 | PmFAnd (a b : pm_filter)
 | PmFOr (a b : pm_filter)
 | PmFNot (a : pm_filter).
@@ -106,6 +115,20 @@ Fixpoint pm_assoc (k : pm_str) (l : list (pm_str * pm_str)) : option pm_str :=
   match l with
   | [] => None
   | (k', v) :: r => if pm_str_eqb k k' then Some v else pm_assoc k r
+  end.
+
+(* ---------------------------------------------------------------- free names: filter_vars and global constants *)
+(* the value of a free name: a string or an array of strings *)
+Inductive pm_fval := PmVS (s : pm_str) | PmVA (l : list pm_str).
+(* an environment of free names, first binding wins.  The PERMISSION filter (a lambda called with `this` = the
+   permission frame's namespace, which holds nothing but what EvaluateFilter binds) resolves a free name in the
+   global constants G only; the USER's filter runs in a frame whose namespace also received the request's
+   filter_vars, which therefore come first: filter_vars ++ G. *)
+Definition pm_env := list (pm_str * pm_fval).
+Fixpoint pm_env_get (x : pm_str) (e : pm_env) : option pm_fval :=
+  match e with
+  | [] => None
+  | (k, v) :: r => if pm_str_eqb x k then Some v else pm_env_get x r
   end.
 
 (* ---------------------------------------------------------------- the namespace of a filter frame *)
@@ -149,8 +172,13 @@ Definition pm_bind (ns : pm_ns) (o : pm_obj) : pm_ns :=
   fold_left (fun ns v => pm_ns_set ns v (pm_nav_val o v)) (pm_nav_vars (po_type o))
             (pm_ns_set (pm_ns_set ns PmScObj self) (pm_type_var (po_type o)) self).
 
-(* filter->Evaluate(frame): reads only the namespace [ns] (and, for the user's filter, filter_vars [fv]) *)
-Fixpoint pm_eval (fv : list (pm_str * pm_str)) (ns : pm_ns) (f : pm_filter) : pm_tri :=
+(* `x.name` converted to a String for a function argument: Empty (null x) converts to "" *)
+Definition pm_val_name (val : pm_val) : pm_str := match val with None => [] | Some (nm, _) => nm end.
+
+(* filter->Evaluate(frame): reads the frame's namespace [ns] for the variables EvaluateFilter binds and the
+   environment [env] for free names.  Operand order as in the expression classes: `a == b` evaluates a then b,
+   `a in b` evaluates b first (not an Array: ScriptError), a call evaluates its arguments left to right. *)
+Fixpoint pm_eval (env : pm_env) (ns : pm_ns) (f : pm_filter) : pm_tri :=
   match f with
   | PmFTrue => PmT
   | PmFFalse => PmF
@@ -175,29 +203,83 @@ Fixpoint pm_eval (fv : list (pm_str * pm_str)) (ns : pm_ns) (f : pm_filter) : pm
       match pm_ns_get ns sc with
       | None => PmE
       | Some val =>
-          match pm_assoc x fv with
+          match pm_env_get x env with
           | None => PmE                              (* undefined script variable *)
-          | Some n => match val with None => PmF | Some (nm, _) => pm_tri_of_bool (pm_str_eqb nm n) end
+          | Some (PmVA _) => PmF                     (* String == Array *)
+          | Some (PmVS n) => match val with None => PmF | Some (nm, _) => pm_tri_of_bool (pm_str_eqb nm n) end
           end
       end
+  | PmFVarFree sc k x =>
+      match pm_ns_get ns sc with
+      | None => PmE
+      | Some (Some (_, None)) => PmE                 (* no such field *)
+      | Some val =>
+          match pm_env_get x env with
+          | None => PmE
+          | Some (PmVA _) => PmF
+          | Some (PmVS v) =>
+              match val with
+              | Some (_, Some vars) =>
+                  match pm_assoc k vars with None => PmF | Some v' => pm_tri_of_bool (pm_str_eqb v' v) end
+              | _ => PmF
+              end
+          end
+      end
+  | PmFNameIn sc x =>
+      match pm_env_get x env with
+      | None => PmE
+      | Some (PmVS _) => PmE                         (* Invalid right side argument for 'in' operator *)
+      | Some (PmVA l) =>
+          match pm_ns_get ns sc with
+          | None => PmE
+          | Some None => PmF
+          | Some (Some (nm, _)) => pm_tri_of_bool (existsb (pm_str_eqb nm) l)
+          end
+      end
+  | PmFMatch sc pat =>
+      match pm_ns_get ns sc with
+      | None => PmE
+      | Some val => pm_tri_of_bool (pm_match pat (pm_val_name val))
+      end
+  | PmFMatchVar sc x =>
+      match pm_env_get x env with
+      | None => PmE
+      | Some xv =>
+          match pm_ns_get ns sc with
+          | None => PmE
+          | Some val => match xv with PmVS pat => pm_tri_of_bool (pm_match pat (pm_val_name val)) | PmVA _ => PmF end
+          end
+      end
+  | PmFLen sc n =>
+      match pm_ns_get ns sc with
+      | None => PmE
+      | Some val => pm_tri_of_bool (Z.of_nat (length (pm_val_name val)) =? n)
+      end
+  | PmFRegex sc s =>
+      match pm_ns_get ns sc with
+      | None => PmE
+      | Some val => pm_tri_of_bool (pm_str_eqb (pm_val_name val) s)
+      end
   | PmFAnd a b =>
-      match pm_eval fv ns a with PmE => PmE | PmF => PmF | PmT => pm_eval fv ns b end
+      match pm_eval env ns a with PmE => PmE | PmF => PmF | PmT => pm_eval env ns b end
   | PmFOr a b =>
-      match pm_eval fv ns a with PmE => PmE | PmT => PmT | PmF => pm_eval fv ns b end
+      match pm_eval env ns a with PmE => PmE | PmT => PmT | PmF => pm_eval env ns b end
   | PmFNot a =>
-      match pm_eval fv ns a with PmE => PmE | PmT => PmF | PmF => PmT end
+      match pm_eval env ns a with PmE => PmE | PmT => PmF | PmF => PmT end
   end.
 
 (* FilterUtility::EvaluateFilter(frame, filter, target): a null filter returns true before anything is bound;
-   otherwise bind, then evaluate.  Result: the frame's namespace afterwards and the outcome. *)
-Definition pm_evalf (fv : list (pm_str * pm_str)) (pf : option pm_filter) (ns : pm_ns) (o : pm_obj) : pm_ns * pm_tri :=
+   otherwise bind, then evaluate.  Result: the frame's namespace afterwards and the outcome.  [env] = what a free
+   name resolves to in this frame. *)
+Definition pm_evalf (env : pm_env) (pf : option pm_filter) (ns : pm_ns) (o : pm_obj) : pm_ns * pm_tri :=
   match pf with
   | None => (ns, PmT)
-  | Some f => let ns' := pm_bind ns o in (ns', pm_eval fv ns' f)
+  | Some f => let ns' := pm_bind ns o in (ns', pm_eval env ns' f)
   end.
 
-(* the evaluation the statement means: the filter on the object alone (a fresh namespace) *)
-Definition pm_eval_opt (pf : option pm_filter) (o : pm_obj) : pm_tri := snd (pm_evalf [] pf [] o).
+(* the evaluation the statement means: the permission filter on the object alone - a fresh namespace, free names
+   resolved in the global constants [G] and nowhere else *)
+Definition pm_eval_opt (G : pm_env) (pf : option pm_filter) (o : pm_obj) : pm_tri := snd (pm_evalf G pf [] o).
 
 (* ---------------------------------------------------------------- HasPermission / CheckPermission *)
 Record pm_entry := { pe_perm : pm_str; pe_filter : option pm_filter }.
@@ -238,7 +320,7 @@ Record pm_query := {
   pq_services : option (list pm_str);   (* "services" *)
   pq_type : option pm_qtype;            (* "type" *)
   pq_filter : option pm_filter;         (* "filter" *)
-  pq_fvars : list (pm_str * pm_str)     (* "filter_vars" *)
+  pq_fvars : pm_env                     (* "filter_vars" *)
 }.
 
 Inductive pm_err :=
@@ -261,54 +343,56 @@ Definition pm_q_plural (q : pm_query) (t : pm_type) : option (list pm_str) :=
   match t with PmHost => pq_hosts q | PmService => pq_services q end.
 
 (* GetTargetByName + EvaluateFilter(permissionFrame, permissionFilter, target) + throw "Access denied".
-   [ns] = the permission frame's namespace before this evaluation; returned with the target on success. *)
-Definition pm_name_one (pf : option pm_filter) (inv : list pm_obj) (t : pm_type) (n : pm_str)
+   [ns] = the permission frame's namespace before this evaluation; returned with the target on success.
+   The permission frame's namespace is a `new Namespace()` only EvaluateFilter writes to
+   (Facts_c18.f_pm_perm_ns_private): a free name of the permission filter is resolved in G. *)
+Definition pm_name_one (G : pm_env) (pf : option pm_filter) (inv : list pm_obj) (t : pm_type) (n : pm_str)
            (ns : pm_ns) : pm_err + (pm_obj * pm_ns) :=
   match pm_lookup inv t n with
   | None => inl PmErrNoObj
   | Some o =>
-      match pm_evalf [] pf ns o with
+      match pm_evalf G pf ns o with
       | (ns', PmT) => inr (o, ns')
       | (_, PmF) => inl PmErrDenied
       | (_, PmE) => inl PmErrScript
       end
   end.
 
-Fixpoint pm_name_list (pf : option pm_filter) (inv : list pm_obj) (t : pm_type) (ns : list pm_str)
+Fixpoint pm_name_list (G : pm_env) (pf : option pm_filter) (inv : list pm_obj) (t : pm_type) (ns : list pm_str)
          (acc : list pm_obj) (fr : pm_ns) : pm_err + list pm_obj :=
   match ns with
   | [] => inr acc
   | n :: r =>
-      match pm_name_one pf inv t n fr with
+      match pm_name_one G pf inv t n fr with
       | inl e => inl e
-      | inr (o, fr') => pm_name_list pf inv t r (acc ++ [o]) fr'
+      | inr (o, fr') => pm_name_list G pf inv t r (acc ++ [o]) fr'
       end
   end.
 
 (* one iteration of `for (const String& type : qd.Types)`: it starts with
    `permissionFrame.Self = new Namespace()` (fix 053695b), i.e. with an empty namespace *)
-Definition pm_names_type (pf : option pm_filter) (inv : list pm_obj) (q : pm_query) (t : pm_type)
+Definition pm_names_type (G : pm_env) (pf : option pm_filter) (inv : list pm_obj) (q : pm_query) (t : pm_type)
            (acc : list pm_obj) : pm_err + list pm_obj :=
   match (match pm_q_single q t with
          | None => inr (acc, [])
-         | Some n => match pm_name_one pf inv t n [] with inl e => inl e | inr (o, fr) => inr (acc ++ [o], fr) end
+         | Some n => match pm_name_one G pf inv t n [] with inl e => inl e | inr (o, fr) => inr (acc ++ [o], fr) end
          end) with
   | inl e => inl e
   | inr (acc1, fr1) =>
       match pm_q_plural q t with
       | None => inr acc1
-      | Some ns => pm_name_list pf inv t ns acc1 fr1
+      | Some ns => pm_name_list G pf inv t ns acc1 fr1
       end
   end.
 
-Fixpoint pm_by_names (pf : option pm_filter) (inv : list pm_obj) (q : pm_query) (tys : list pm_type)
+Fixpoint pm_by_names (G : pm_env) (pf : option pm_filter) (inv : list pm_obj) (q : pm_query) (tys : list pm_type)
          (acc : list pm_obj) : pm_err + list pm_obj :=
   match tys with
   | [] => inr acc
   | t :: r =>
-      match pm_names_type pf inv q t acc with
+      match pm_names_type G pf inv q t acc with
       | inl e => inl e
-      | inr acc' => pm_by_names pf inv q r acc'
+      | inr acc' => pm_by_names G pf inv q r acc'
       end
   end.
 
@@ -317,15 +401,17 @@ Definition pm_names_consult (q : pm_query) (tys : list pm_type) : bool :=
   existsb (fun t => match pm_q_single q t with Some _ => true | None => false end
                     || match pm_q_plural q t with Some (_ :: _) => true | _ => false end) tys.
 
-(* ApplyRule::GetComparedName / IsNameIndexer / GetConstString with `constants` = filter_vars *)
-Definition pm_compared_name (sc : pm_scope) (f : pm_filter) (fv : list (pm_str * pm_str)) : option pm_str :=
+(* ApplyRule::GetComparedName / IsNameIndexer / GetConstString with `constants` = filter_vars (NOT the globals:
+   a variable that is no filter_vars key, or whose value is no String, is no constant - no fast path) *)
+Definition pm_compared_name (sc : pm_scope) (f : pm_filter) (fv : pm_env) : option pm_str :=
   match f with
   | PmFName sc' n => if pm_scope_eqb sc' sc then Some n else None
-  | PmFNameVar sc' x => if pm_scope_eqb sc' sc then pm_assoc x fv else None
+  | PmFNameVar sc' x =>
+      if pm_scope_eqb sc' sc then match pm_env_get x fv with Some (PmVS n) => Some n | _ => None end else None
   | _ => None
   end.
 
-Fixpoint pm_target_hosts (f : pm_filter) (fv : list (pm_str * pm_str)) : option (list pm_str) :=
+Fixpoint pm_target_hosts (f : pm_filter) (fv : pm_env) : option (list pm_str) :=
   match f with
   | PmFOr a b =>
       match pm_target_hosts a fv with
@@ -335,7 +421,7 @@ Fixpoint pm_target_hosts (f : pm_filter) (fv : list (pm_str * pm_str)) : option 
   | _ => match pm_compared_name PmScHost f fv with Some n => Some [n] | None => None end
   end.
 
-Definition pm_target_service (f : pm_filter) (fv : list (pm_str * pm_str)) : option (pm_str * pm_str) :=
+Definition pm_target_service (f : pm_filter) (fv : pm_env) : option (pm_str * pm_str) :=
   match f with
   | PmFAnd op1 op2 =>
       match pm_compared_name PmScHost op1 fv with
@@ -349,7 +435,7 @@ Definition pm_target_service (f : pm_filter) (fv : list (pm_str * pm_str)) : opt
   | _ => None
   end.
 
-Fixpoint pm_target_services (f : pm_filter) (fv : list (pm_str * pm_str)) : option (list pm_str) :=
+Fixpoint pm_target_services (f : pm_filter) (fv : pm_env) : option (list pm_str) :=
   match f with
   | PmFOr a b =>
       match pm_target_services a fv with
@@ -359,63 +445,77 @@ Fixpoint pm_target_services (f : pm_filter) (fv : list (pm_str * pm_str)) : opti
   | _ => match pm_target_service f fv with Some (h, s) => Some [h ++ [33] ++ s] | None => None end
   end.
 
-Definition pm_targets (t : pm_type) (f : pm_filter) (fv : list (pm_str * pm_str)) : option (list pm_str) :=
+Definition pm_targets (t : pm_type) (f : pm_filter) (fv : pm_env) : option (list pm_str) :=
   match t with PmHost => pm_target_hosts f fv | PmService => pm_target_services f fv end.
 
 (* `if (targeted)`: names -> objects (missing ones are skipped), then only the PERMISSION filter, all in the one
    permission namespace [ns] *)
-Fixpoint pm_fast_collect (pf : option pm_filter) (ns : pm_ns) (inv : list pm_obj) (t : pm_type)
+Fixpoint pm_fast_collect (G : pm_env) (pf : option pm_filter) (ns : pm_ns) (inv : list pm_obj) (t : pm_type)
          (names : list pm_str) : pm_err + list pm_obj :=
   match names with
   | [] => inr []
   | n :: r =>
       match pm_lookup inv t n with
-      | None => pm_fast_collect pf ns inv t r
+      | None => pm_fast_collect G pf ns inv t r
       | Some o =>
-          match pm_evalf [] pf ns o with
+          match pm_evalf G pf ns o with
           | (_, PmE) => inl PmErrScript
-          | (ns', PmF) => pm_fast_collect pf ns' inv t r
-          | (ns', PmT) => match pm_fast_collect pf ns' inv t r with inl e => inl e | inr l => inr (o :: l) end
+          | (ns', PmF) => pm_fast_collect G pf ns' inv t r
+          | (ns', PmT) => match pm_fast_collect G pf ns' inv t r with inl e => inl e | inr l => inr (o :: l) end
           end
       end
   end.
 
-(* FindTargets + FilteredAddTarget: permission filter in the permission namespace [pns], then the user filter in
-   the namespace [uns] of the user's own frame (filter_vars [fv] live there too) *)
-Fixpoint pm_scan (pf : option pm_filter) (pns : pm_ns) (uf : option pm_filter) (fv : list (pm_str * pm_str))
+(* FindTargets + FilteredAddTarget: the permission filter in the permission frame (namespace [pns], free names in
+   G), then the user's filter in the user's own sandboxed frame: namespace [uns], into which the request's
+   filter_vars [fv] were Set before the enumeration - they shadow the globals THERE, and only there *)
+Fixpoint pm_scan (G : pm_env) (pf : option pm_filter) (pns : pm_ns) (uf : option pm_filter) (fv : pm_env)
          (uns : pm_ns) (t : pm_type) (inv : list pm_obj) : pm_err + list pm_obj :=
   match inv with
   | [] => inr []
   | o :: r =>
       if pm_type_eqb (po_type o) t then
-        match pm_evalf [] pf pns o with
+        match pm_evalf G pf pns o with
         | (_, PmE) => inl PmErrScript
-        | (pns', PmF) => pm_scan pf pns' uf fv uns t r
+        | (pns', PmF) => pm_scan G pf pns' uf fv uns t r
         | (pns', PmT) =>
-            match pm_evalf fv uf uns o with
+            match pm_evalf (fv ++ G) uf uns o with
             | (_, PmE) => inl PmErrScript
-            | (uns', PmF) => pm_scan pf pns' uf fv uns' t r
-            | (uns', PmT) => match pm_scan pf pns' uf fv uns' t r with inl e => inl e | inr l => inr (o :: l) end
+            | (uns', PmF) => pm_scan G pf pns' uf fv uns' t r
+            | (uns', PmT) => match pm_scan G pf pns' uf fv uns' t r with inl e => inl e | inr l => inr (o :: l) end
             end
         end
-      else pm_scan pf pns uf fv uns t r
+      else pm_scan G pf pns uf fv uns t r
   end.
 
-(* fix 06579d2: filter_vars named obj / host / service are overwritten by EvaluateFilter with the target, so
-   they are no constants and the fast path is skipped (variableName is empty for the config-object handlers) *)
-Definition pm_shadowed (fv : list (pm_str * pm_str)) : bool :=
-  existsb (fun kv => pm_str_eqb (fst kv) [111;98;106] || pm_str_eqb (fst kv) [104;111;115;116]
-                     || pm_str_eqb (fst kv) [115;101;114;118;105;99;101]) fv.
+(* the DSL name of a namespace variable (= Facts: PmFacts.pm_scope_name) *)
+Definition pm_scope_zname (v : pm_scope) : pm_str :=
+  match v with
+  | PmScObj => [111;98;106]
+  | PmScHost => [104;111;115;116]
+  | PmScService => [115;101;114;118;105;99;101]
+  | PmScNav PmNCheckCommand => [99;104;101;99;107;95;99;111;109;109;97;110;100]
+  | PmScNav PmNCheckPeriod => [99;104;101;99;107;95;112;101;114;105;111;100]
+  | PmScNav PmNEventCommand => [101;118;101;110;116;95;99;111;109;109;97;110;100]
+  | PmScNav PmNCommandEndpoint => [99;111;109;109;97;110;100;95;101;110;100;112;111;105;110;116]
+  end.
+
+(* fix 06579d2 and its extension: filter_vars named obj / host / service, or like a navigation field of the queried
+   type (check_command, ...), are overwritten by EvaluateFilter with the target resp. a joined object, so they are
+   no constants and the fast path is skipped (variableName is empty for the config-object handlers) *)
+Definition pm_shadowed (t : pm_type) (fv : pm_env) : bool :=
+  existsb (fun kv => existsb (fun v => pm_str_eqb (fst kv) (pm_scope_zname v))
+                             ([PmScObj; PmScHost; PmScService] ++ pm_nav_vars t)) fv.
 
 (* the filter phase; it starts with `permissionFrame.Self = new Namespace()` (fix 17a75cd) and a new user frame *)
-Definition pm_by_filter (fast : bool) (pf : option pm_filter) (inv : list pm_obj) (t : pm_type)
-           (uf : option pm_filter) (fv : list (pm_str * pm_str)) : pm_err + list pm_obj :=
+Definition pm_by_filter (G : pm_env) (fast : bool) (pf : option pm_filter) (inv : list pm_obj) (t : pm_type)
+           (uf : option pm_filter) (fv : pm_env) : pm_err + list pm_obj :=
   match uf with
-  | None => pm_scan pf [] None fv [] t inv
+  | None => pm_scan G pf [] None fv [] t inv
   | Some f =>
-      match (if fast && negb (pm_shadowed fv) then pm_targets t f fv else None) with
-      | Some ns => pm_fast_collect pf [] inv t ns
-      | None => pm_scan pf [] (Some f) fv [] t inv
+      match (if fast && negb (pm_shadowed t fv) then pm_targets t f fv else None) with
+      | Some ns => pm_fast_collect G pf [] inv t ns
+      | None => pm_scan G pf [] (Some f) fv [] t inv
       end
   end.
 
@@ -429,15 +529,15 @@ Definition pm_qtype_in (tys : list pm_type) (qt : pm_qtype) : option pm_type :=
 Definition pm_is_nil {A} (l : list A) : bool := match l with [] => true | _ => false end.
 Definition pm_is_some {A} (o : option A) : bool := match o with Some _ => true | None => false end.
 
-(* fast = the provider is the ConfigObjectTargetProvider (fast path available).
+(* G = the global constants; fast = the provider is the ConfigObjectTargetProvider (fast path available).
    Result: (was any object consulted, result) *)
-Definition pm_filter_targets (fast : bool) (u : list pm_entry) (perm : pm_str) (tys : list pm_type)
+Definition pm_filter_targets (G : pm_env) (fast : bool) (u : list pm_entry) (perm : pm_str) (tys : list pm_type)
            (q : pm_query) (inv : list pm_obj) : bool * pm_result :=
   match pm_check_permission u perm with
   | None => (false, PmErr PmErrPerm)
   | Some pf =>
       let c1 := pm_names_consult q tys in
-      match pm_by_names pf inv q tys [] with
+      match pm_by_names G pf inv q tys [] with
       | inl e => (c1, PmErr e)
       | inr res =>
           if pm_is_some (pq_filter q) || pm_is_nil res then
@@ -448,7 +548,7 @@ Definition pm_filter_targets (fast : bool) (u : list pm_entry) (perm : pm_str) (
                 match pm_qtype_in tys qt with
                 | None => (c1, PmErr PmErrTypeNotInQd)
                 | Some t =>
-                    (true, match pm_by_filter fast pf inv t (pq_filter q) (pq_fvars q) with
+                    (true, match pm_by_filter G fast pf inv t (pq_filter q) (pq_fvars q) with
                            | inl e => PmErr e
                            | inr l => PmOk (res ++ l)
                            end)
@@ -458,28 +558,170 @@ Definition pm_filter_targets (fast : bool) (u : list pm_entry) (perm : pm_str) (
       end
   end.
 
-(* ---------------------------------------------------------------- objectqueryhandler.cpp joins *)
+(* ---------------------------------------------------------------- the statement's reading of "permitted" *)
+(* some entry matches the required permission and, when that entry carries a filter, the filter is true of the
+   object alone under the global constants *)
+Definition pm_entry_allows (G : pm_env) (perm : pm_str) (o : pm_obj) (e : pm_entry) : bool :=
+  pm_match (pm_lower (pe_perm e)) (pm_lower perm)
+  && match pe_filter e with None => true | Some f => pm_is_t (pm_eval G (pm_bind [] o) f) end.
+Definition pm_spec_allow (G : pm_env) (u : list pm_entry) (perm : pm_str) (o : pm_obj) : bool :=
+  existsb (pm_entry_allows G perm o) u.
+Definition pm_spec_has (u : list pm_entry) (perm : pm_str) : bool :=
+  match perm with
+  | [] => true
+  | _ => existsb (fun e => pm_match (pm_lower (pe_perm e)) (pm_lower perm)) u
+  end.
+
 (* "objects/query/" *)
 Definition pm_query_prefix : pm_str := [111;98;106;101;99;116;115;47;113;117;101;114;121;47].
 Definition pm_type_name (t : pm_type) : pm_str :=
   match t with PmHost => [72;111;115;116] | PmService => [83;101;114;118;105;99;101] end.
 Definition pm_query_perm (t : pm_type) : pm_str := pm_query_prefix ++ pm_type_name t.
 
-(* a joined object is serialised iff HasPermission("objects/query/<its type>") and its filter is true
-   (a ScriptError while evaluating counts as "no"); a fresh frame per joined object *)
-Definition pm_join_visible (u : list pm_entry) (o : pm_obj) : bool :=
-  let '(granted, pf) := pm_has_permission u (pm_query_perm (po_type o)) in
-  granted && pm_is_t (pm_eval_opt pf o).
-
-(* ---------------------------------------------------------------- the statement's reading of "permitted" *)
-(* some entry matches the required permission and, when that entry carries a filter, the filter is true *)
-Definition pm_entry_allows (perm : pm_str) (o : pm_obj) (e : pm_entry) : bool :=
-  pm_match (pm_lower (pe_perm e)) (pm_lower perm)
-  && match pe_filter e with None => true | Some f => pm_is_t (pm_eval [] (pm_bind [] o) f) end.
-Definition pm_spec_allow (u : list pm_entry) (perm : pm_str) (o : pm_obj) : bool :=
-  existsb (pm_entry_allows perm o) u.
-Definition pm_spec_has (u : list pm_entry) (perm : pm_str) : bool :=
-  match perm with
-  | [] => true
-  | _ => existsb (fun e => pm_match (pm_lower (pe_perm e)) (pm_lower perm)) u
+(* ---------------------------------------------------------------- objectqueryhandler.cpp joins *)
+(* the types the navigation fields of Host / Service lead to *)
+Inductive pm_jtype := PmJHost | PmJCheckCommand | PmJTimePeriod | PmJEventCommand | PmJEndpoint.
+Definition pm_jtype_eqb (a b : pm_jtype) : bool :=
+  match a, b with
+  | PmJHost, PmJHost | PmJCheckCommand, PmJCheckCommand | PmJTimePeriod, PmJTimePeriod
+  | PmJEventCommand, PmJEventCommand | PmJEndpoint, PmJEndpoint => true
+  | _, _ => false
   end.
+Definition pm_jtype_name (t : pm_jtype) : pm_str :=
+  match t with
+  | PmJHost => [72;111;115;116]
+  | PmJCheckCommand => [67;104;101;99;107;67;111;109;109;97;110;100]
+  | PmJTimePeriod => [84;105;109;101;80;101;114;105;111;100]
+  | PmJEventCommand => [69;118;101;110;116;67;111;109;109;97;110;100]
+  | PmJEndpoint => [69;110;100;112;111;105;110;116]
+  end.
+(* String permission = "objects/query/" + reflectionType->GetName() *)
+Definition pm_jquery_perm (t : pm_jtype) : pm_str := pm_query_prefix ++ pm_jtype_name t.
+
+(* a joined object: a host of the inventory, or an object of another type of which the fragment sees the name and
+   whether its type has a `vars` field (CheckCommand, TimePeriod, EventCommand: yes; Endpoint: no).  Objects of
+   DIFFERENT types may carry the SAME name: names are unique within a type only. *)
+Inductive pm_jobj := PmJH (o : pm_obj) | PmJA (t : pm_jtype) (n : pm_str).
+Definition pm_jobj_type (j : pm_jobj) : pm_jtype := match j with PmJH _ => PmJHost | PmJA t _ => t end.
+Definition pm_jobj_name (j : pm_jobj) : pm_str := match j with PmJH o => po_name o | PmJA _ n => n end.
+
+(* EvaluateFilter's binding step for a joined object in a NEW frame (`ScriptFrame permissionFrame(false, new Namespace())`):
+   a host as for any host target; for the other types `obj` (and a type variable and navigation fields the fragment has
+   no name for) *)
+Definition pm_jbind (j : pm_jobj) : pm_ns :=
+  match j with
+  | PmJH o => pm_bind [] o
+  | PmJA t n => [(PmScObj, Some (n, match t with PmJEndpoint => None | _ => Some [] end))]
+  end.
+
+(* accessAllowed = EvaluateFilter(permissionFrame, permissionFilter, joinedObj); a ScriptError counts as "no" *)
+Definition pm_jverdict (G : pm_env) (pf : option pm_filter) (j : pm_jobj) : bool :=
+  match pf with None => true | Some f => pm_is_t (pm_eval G (pm_jbind j) f) end.
+
+(* what the loop decides without its caches: HasPermission("objects/query/<type of the joined object>") and the
+   combined filter of THAT permission true of the joined object *)
+Definition pm_join_visible (G : pm_env) (u : list pm_entry) (j : pm_jobj) : bool :=
+  let '(granted, pf) := pm_has_permission u (pm_jquery_perm (pm_jobj_type j)) in
+  granted && pm_jverdict G pf j.
+
+(* the identity of a config object: its type AND its name.  This is what an `Object*` key distinguishes
+   (Facts_c18.f_pm_join_cache_key): two live objects are the same object iff type and name agree. *)
+Definition pm_jkey := (pm_jtype * pm_str)%type.
+Definition pm_jkey_of (j : pm_jobj) : pm_jkey := (pm_jobj_type j, pm_jobj_name j).
+Definition pm_jkey_eqb (a b : pm_jkey) : bool := pm_jtype_eqb (fst a) (fst b) && pm_str_eqb (snd a) (snd b).
+
+(* the two per-request caches of ObjectQueryHandler::HandleRequest:
+   typePermissions : unordered_map<Type*, pair<bool, unique_ptr<Expression>>>   and
+   objectAccessAllowed : unordered_map<Object*, bool>; both live for the whole request - across result objects,
+   across join fields, across joined types *)
+Record pm_jcache := {
+  jc_types : list (pm_jtype * (bool * option pm_filter));
+  jc_objs : list (pm_jkey * bool)
+}.
+Definition pm_jcache_empty : pm_jcache := {| jc_types := []; jc_objs := [] |}.
+
+Fixpoint pm_jc_type_find (t : pm_jtype) (l : list (pm_jtype * (bool * option pm_filter))) : option (bool * option pm_filter) :=
+  match l with
+  | [] => None
+  | (t', x) :: r => if pm_jtype_eqb t t' then Some x else pm_jc_type_find t r
+  end.
+Fixpoint pm_jc_obj_find (k : pm_jkey) (l : list (pm_jkey * bool)) : option bool :=
+  match l with
+  | [] => None
+  | (k', b) :: r => if pm_jkey_eqb k k' then Some b else pm_jc_obj_find k r
+  end.
+
+(* one joined object: typePermissions lookup / fill, `if (!granted) continue`, objectAccessAllowed lookup / fill *)
+Definition pm_join_one (G : pm_env) (u : list pm_entry) (c : pm_jcache) (j : pm_jobj) : pm_jcache * bool :=
+  let t := pm_jobj_type j in
+  let '(c1, (granted, pf)) :=
+    match pm_jc_type_find t (jc_types c) with
+    | Some gp => (c, gp)
+    | None =>
+        let gp := pm_has_permission u (pm_jquery_perm t) in
+        ({| jc_types := (t, gp) :: jc_types c; jc_objs := jc_objs c |}, gp)
+    end in
+  if negb granted then (c1, false)
+  else
+    match pm_jc_obj_find (pm_jkey_of j) (jc_objs c1) with
+    | Some b => (c1, b)
+    | None =>
+        let b := pm_jverdict G pf j in
+        ({| jc_types := jc_types c1; jc_objs := (pm_jkey_of j, b) :: jc_objs c1 |}, b)
+    end.
+
+(* joinAttrs is a std::set<String> of field names, so the fields are visited in alphabetical order:
+   check_command < check_period < command_endpoint < event_command < host *)
+Definition pm_join_order : list pm_scope :=
+  [PmScNav PmNCheckCommand; PmScNav PmNCheckPeriod; PmScNav PmNCommandEndpoint; PmScNav PmNEventCommand; PmScHost].
+(* the navigation fields of the queried type that the request selected (all_joins, or the prefix of a `joins` entry) *)
+Definition pm_join_attrs (t : pm_type) (sel : list pm_scope) (all : bool) : list pm_scope :=
+  filter (fun v => existsb (pm_scope_eqb v) (pm_nav_vars t) && (all || existsb (pm_scope_eqb v) sel)) pm_join_order.
+
+(* obj->NavigateField(fid) of a result object *)
+Definition pm_navigate (inv : list pm_obj) (o : pm_obj) (v : pm_scope) : option pm_jobj :=
+  match v with
+  | PmScNav PmNCheckCommand => option_map (PmJA PmJCheckCommand) (po_cc o)
+  | PmScNav PmNCheckPeriod => option_map (PmJA PmJTimePeriod) (po_cp o)
+  | PmScNav PmNEventCommand => option_map (PmJA PmJEventCommand) (po_ec o)
+  | PmScNav PmNCommandEndpoint => option_map (PmJA PmJEndpoint) (po_ce o)
+  | PmScHost =>
+      match po_type o with
+      | PmService => option_map PmJH (pm_lookup inv PmHost (po_host o))
+      | PmHost => None
+      end
+  | _ => None
+  end.
+
+(* `for (const String& joinAttr : joinAttrs)` for one result object: which (field, joined object) are serialised *)
+Fixpoint pm_join_fields (G : pm_env) (u : list pm_entry) (inv : list pm_obj) (c : pm_jcache) (o : pm_obj)
+         (fields : list pm_scope) : pm_jcache * list (pm_scope * pm_jkey) :=
+  match fields with
+  | [] => (c, [])
+  | v :: r =>
+      match pm_navigate inv o v with
+      | None => pm_join_fields G u inv c o r                       (* if (!joinedObj) continue *)
+      | Some j =>
+          let '(c1, ok) := pm_join_one G u c j in
+          let '(c2, l) := pm_join_fields G u inv c1 o r in
+          (c2, if ok then (v, pm_jkey_of j) :: l else l)
+      end
+  end.
+
+(* `for (const ConfigObject::Ptr& obj : objs)` with the caches carried from one result object to the next *)
+Fixpoint pm_join_objs (G : pm_env) (u : list pm_entry) (inv : list pm_obj) (c : pm_jcache) (fields : list pm_scope)
+         (objs : list pm_obj) : list (pm_scope * pm_jkey) :=
+  match objs with
+  | [] => []
+  | o :: r => let '(c1, l) := pm_join_fields G u inv c o fields in l ++ pm_join_objs G u inv c1 fields r
+  end.
+
+Definition pm_joins (G : pm_env) (u : list pm_entry) (inv : list pm_obj) (t : pm_type) (sel : list pm_scope) (all : bool)
+           (objs : list pm_obj) : list (pm_scope * pm_jkey) :=
+  pm_join_objs G u inv pm_jcache_empty (pm_join_attrs t sel all) objs.
+
+(* the statement's reading for a joined object *)
+Definition pm_jentry_allows (G : pm_env) (j : pm_jobj) (e : pm_entry) : bool :=
+  pm_match (pm_lower (pe_perm e)) (pm_lower (pm_jquery_perm (pm_jobj_type j)))
+  && match pe_filter e with None => true | Some f => pm_is_t (pm_eval G (pm_jbind j) f) end.
+Definition pm_spec_allow_j (G : pm_env) (u : list pm_entry) (j : pm_jobj) : bool := existsb (pm_jentry_allows G j) u.
